@@ -743,7 +743,9 @@ class tensor:
                 assert False, "Inner product must be between tensors of the same size"
             x = np.reshape(self.data, (self.data.size,), order=self.order)
             y = np.reshape(other.data, (other.data.size,), order=self.order)
-            return x.dot(y).item()
+            # accumulate in at least the platform integer, not in a narrow element type
+            acc = np.result_type(x.dtype, y.dtype, np.int_)
+            return x.astype(acc, copy=False).dot(y.astype(acc, copy=False)).item()
         if isinstance(other, (ttb.ktensor, ttb.sptensor, ttb.ttensor)):
             # Reverse arguments and call specializer code
             return other.innerprod(self)
